@@ -15,6 +15,7 @@ import (
 	"encoding/json"
 	"flag"
 	"fmt"
+	"io"
 	"reflect"
 	"sort"
 	"strconv"
@@ -130,7 +131,9 @@ const coqUniv = "UNIV"
 
 // ---------------------------------------------------------------- generic glue
 
-type invoker func(ctx context.Context, input any) (any, error)
+// invoker runs the compiled graph on one input; stream = through Runnable.Stream (the
+// output stream is read to its end and must hold exactly one chunk) instead of Invoke
+type invoker func(ctx context.Context, input any, stream bool) (any, error)
 
 type graphH interface {
 	AddLambdaNode(key string, node *compose.Lambda, opts ...compose.GraphAddNodeOpt) error
@@ -147,14 +150,38 @@ func (g gh[I, O]) compile(ctx context.Context, opts ...compose.GraphCompileOptio
 	if err != nil {
 		return nil, err
 	}
-	return func(ctx context.Context, input any) (any, error) {
+	return func(ctx context.Context, input any, stream bool) (any, error) {
 		var in I
 		if input != nil {
 			in = input.(I)
 		}
-		out, err := r.Invoke(ctx, in)
+		if !stream {
+			out, err := r.Invoke(ctx, in)
+			if err != nil {
+				return nil, err
+			}
+			return out, nil
+		}
+		sr, err := r.Stream(ctx, in)
 		if err != nil {
 			return nil, err
+		}
+		defer sr.Close()
+		var out any
+		n := 0
+		for {
+			v, err := sr.Recv()
+			if err == io.EOF {
+				break
+			}
+			if err != nil {
+				return nil, err
+			}
+			out = v
+			n++
+		}
+		if n != 1 {
+			return nil, fmt.Errorf("harness: stream delivered %d chunks", n)
 		}
 		return out, nil
 	}, nil
@@ -238,6 +265,10 @@ type RunObs struct {
 	Class  string            `json:"class"` // ok | type_err | panic_rec | panic_esc | other | merge | hang
 	Result string            `json:"result,omitempty"`
 	Msg    string            `json:"msg,omitempty"`
+	DClass  string           `json:"dclass,omitempty"` // the same run on the graph compiled with AllPredecessor (first build only)
+	SClass  string           `json:"sclass,omitempty"` // the same run through Stream
+	SResult string           `json:"sresult,omitempty"`
+	SMsg    string           `json:"smsg,omitempty"`
 }
 
 type BuildObs struct {
@@ -338,7 +369,7 @@ func short(s string) string {
 
 // build constructs the graph from scratch, applies every op, and runs the plans on the
 // runnable of the last Compile if that one succeeded.
-func build(c *Case, plans []runPlan) (bo BuildObs) {
+func build(c *Case, plans []runPlan, extra bool) (bo BuildObs) {
 	ctx := context.Background()
 	var gopts []compose.NewGraphOption
 	switch c.State {
@@ -413,6 +444,15 @@ func build(c *Case, plans []runPlan) (bo BuildObs) {
 	if !lastCompiled || inv == nil {
 		return
 	}
+	// the same graph compiled once more for the all-predecessor (DAG) trigger mode: same types, other scheduling
+	var dagInv invoker
+	if extra {
+		lib.Recover(func() {
+			if di, err := g.compile(ctx, compose.WithNodeTriggerMode(compose.AllPredecessor)); err == nil {
+				dagInv = di
+			}
+		})
+	}
 	bo.Infer = map[string]string{}
 	if cb != nil && cb.info != nil {
 		for k, ni := range cb.info.Nodes {
@@ -441,21 +481,36 @@ func build(c *Case, plans []runPlan) (bo BuildObs) {
 			err error
 			p   any
 		}
-		ch := make(chan res, 1)
-		go func() {
-			var r res
-			r.p = lib.Recover(func() { r.out, r.err = inv(ctx, valueOf(pl.input)) })
-			ch <- r
-		}()
-		select {
-		case r := <-ch:
-			ro.Class, ro.Msg = classify(r.p, r.err)
-			ro.Msg = short(ro.Msg)
-			if ro.Class == "ok" {
-				ro.Result = dynOf(r.out)
+		cur_inv := inv
+		once := func(stream bool) (class, result, msg string) {
+			ch := make(chan res, 1)
+			run := cur_inv
+			go func() {
+				var r res
+				r.p = lib.Recover(func() { r.out, r.err = run(ctx, valueOf(pl.input), stream) })
+				ch <- r
+			}()
+			select {
+			case r := <-ch:
+				class, msg = classify(r.p, r.err)
+				msg = short(msg)
+				if class == "ok" {
+					result = dynOf(r.out)
+				}
+			case <-time.After(10 * time.Second):
+				class = "hang"
 			}
-		case <-time.After(10 * time.Second):
-			ro.Class = "hang"
+			return
+		}
+		ro.Class, ro.Result, ro.Msg = once(false)
+		ro.SClass, ro.SResult, ro.SMsg = once(true)
+		if dagInv != nil {
+			cur_inv = dagInv
+			var dmsg string
+			ro.DClass, _, dmsg = once(false)
+			if ro.DClass == "panic_esc" || ro.DClass == "panic_rec" || ro.DClass == "hang" {
+				ro.DClass += ": " + dmsg
+			}
 		}
 		bo.Runs = append(bo.Runs, ro)
 	}
@@ -758,12 +813,25 @@ func (c *Case) coq(bo *BuildObs) string {
 
 const builds = 5
 
+// number of independent constructions of a case: more when a branch without end nodes is
+// involved (the one place where types used to wait in toValidateMap across calls, so that
+// the result of a later update depended on the map iteration order; an order that Go
+// picks with probability 1/8 is seen in 24 builds with probability 0.96)
+func buildsFor(c *Case) int {
+	for _, o := range c.Ops {
+		if o.K == "branch" && len(o.Ends) == 0 {
+			return 24
+		}
+	}
+	return builds
+}
+
 func (engine) Run(ci any) lib.Result {
 	c := ci.(*Case)
 	plans := planRuns(c)
-	var obs [builds]BuildObs
+	obs := make([]BuildObs, buildsFor(c))
 	for i := range obs {
-		obs[i] = build(c, plans)
+		obs[i] = build(c, plans, i == 0)
 	}
 	bo := &obs[0]
 	res := lib.Result{Obs: bo}
@@ -773,7 +841,7 @@ func (engine) Run(ci any) lib.Result {
 		}
 	}
 	// determinism over map iteration order (5 independent constructions)
-	for i := 1; i < builds; i++ {
+	for i := 1; i < len(obs); i++ {
 		if d := sameBuild(bo, &obs[i], true); d != "" {
 			fail("nondeterministic", fmt.Sprintf("two constructions of the same call sequence differ (build 0 vs %d): %s", i, d))
 		}
@@ -807,6 +875,21 @@ func (engine) Run(ci any) lib.Result {
 				fail("panic-recovered", fmt.Sprintf("accepted graph: run %d (input %s, emit %v) failed with a recovered type-assertion panic: %s", k, r.Input, r.Emit, r.Msg))
 			case "hang":
 				fail("hang", fmt.Sprintf("run %d did not return", k))
+			}
+			// the same run through Stream: the run-time checks are made lazily there (a value nobody
+			// reads is not checked), so only panics and differing results are judged
+			switch {
+			case r.SClass == "panic_esc" || r.SClass == "panic_rec" || r.SClass == "hang":
+				if r.Class != r.SClass {
+					sig := "stream-panic"
+					fail(sig, fmt.Sprintf("accepted graph: run %d (input %s, emit %v) through Stream: %s (%s); Invoke gives %s/%s", k, r.Input, r.Emit, r.SClass, r.SMsg, r.Class, r.Result))
+				}
+			case strings.HasPrefix(r.DClass, "panic") || strings.HasPrefix(r.DClass, "hang"):
+				fail("dag-panic", fmt.Sprintf("accepted graph compiled with AllPredecessor: run %d (input %s, emit %v): %s", k, r.Input, r.Emit, r.DClass))
+			case r.SClass == "ok" && r.Class == "ok" && r.SResult != r.Result:
+				fail("invoke-stream-result-differ", fmt.Sprintf("accepted graph: run %d (input %s, emit %v): Invoke returns %s, Stream returns %s", k, r.Input, r.Emit, r.Result, r.SResult))
+			}
+			switch r.Class {
 			case "type_err":
 				if !typeErrJustified(c, b, r) {
 					fail("spurious-type-error", fmt.Sprintf("run %d (input %s, emit %v) failed with a run-time type error although every emitted value is assignable to every consumer it can reach: %s", k, r.Input, r.Emit, r.Msg))
@@ -821,7 +904,7 @@ func (engine) Run(ci any) lib.Result {
 		ref.Ops = append([]Op(nil), c.Ops...)
 		sort.SliceStable(ref.Ops, func(i, j int) bool { return ref.Ops[i].ID < ref.Ops[j].ID })
 		if respectsNodeFirst(ref.Ops) {
-			rb := build(&ref, plans)
+			rb := build(&ref, plans, false)
 			if d := sameBuild(bo, &rb, false); d != "" {
 				fail("order-dependent", "same calls in the reference order give a different verdict: "+d)
 			}
@@ -865,6 +948,37 @@ func (engine) Run(ci any) lib.Result {
 	if len(bo.Infer) > 0 {
 		tags = append(tags, "inferred:yes")
 	}
+	nh, nbadh, zeroEnd := 0, 0, false
+	for _, o := range c.Ops {
+		if o.K == "branch" && len(o.Ends) == 0 {
+			zeroEnd = true
+		}
+		for _, hp := range []struct {
+			h   *H
+			exp string
+		}{{o.Pre, o.In}, {o.Post, o.Out}} {
+			if hp.h == nil {
+				continue
+			}
+			nh++
+			exp := hp.exp
+			if o.K == "pass" {
+				exp = "any"
+			}
+			if hp.h.Ty != exp || hp.h.State != c.State {
+				nbadh++
+			}
+		}
+	}
+	if nh > 0 {
+		tags = append(tags, "handlers:yes")
+	}
+	if nbadh > 0 {
+		tags = append(tags, "badhandler:yes")
+	}
+	if zeroEnd {
+		tags = append(tags, "zeroend:yes")
+	}
 	if compilePanic {
 		tags = append(tags, "compile:panic")
 	}
@@ -874,6 +988,15 @@ func (engine) Run(ci any) lib.Result {
 	}
 	for k := range cls {
 		tags = append(tags, "run:"+k)
+	}
+	scls := map[string]bool{}
+	for _, r := range bo.Runs {
+		if r.SClass != r.Class {
+			scls[r.Class+">"+r.SClass] = true
+		}
+	}
+	for k := range scls {
+		tags = append(tags, "stream:"+k)
 	}
 	sort.Strings(tags)
 	res.Tags = tags
